@@ -3,7 +3,7 @@
    Sizes: m inducing points, n data points, all arbitrary.  Inverses / roots are relational. *)
 From Coq Require Import Arith QArith Qcanon List.
 Import ListNotations.
-From GPV Require Import Base.LinAlg Base.Exec Models.C14_variational Proofs.C14_variational.
+From GPV Require Import Base.LinAlg Base.Exec Models.C14_variational Proofs.C14_variational Proofs.C14_more.
 
 (* UnwhitenedVariationalStrategy.forward (eval branch: one solve against [m - mz, R], R any
    root of S) computes  Kxx - Kxz Kzz^-1 (Kzz - S) Kzz^-1 Kzx *)
@@ -74,6 +74,51 @@ Theorem c14_kl_whitened_eq_unwhitened_partial :
 Proof. intros K. exact (@kl_alg_whitened_eq K). Qed.
 Print Assumptions c14_kl_whitened_eq_unwhitened_partial.
 
+(* the log-det part of that change of variables, for the factors the code works with: for
+   lower-triangular L (Cholesky factor of Kzz) and C (factor of S_w, CholeskyVariationalDistribution),
+   L C is the lower-triangular factor of S = L S_w L^T and its squared diagonal product
+   (= det S as computed from a Cholesky factor) is det Kzz * det S_w computed the same way.
+   PARTIAL: that the squared diagonal product of a triangular factor T is the (Laplace) determinant
+   of T T^T is not proved. *)
+Theorem c14_kl_logdet_whitening_triangular_partial :
+  forall (K : Fld) n L C Sw,
+    lower n L -> lower n C -> meq n n (mmul n C (mT C)) Sw ->
+    lower n (mmul n L C) /\
+    meq n n (mmul n (mmul n L C) (mT (mmul n L C))) (unwhiten_cov n L Sw) /\
+    fmul (diag_prod n (mmul n L C)) (diag_prod n (mmul n L C))
+    = fmul (fmul (diag_prod n L) (diag_prod n L)) (fmul (diag_prod n C) (diag_prod n C)).
+Proof. intros K. exact (@triangular_factor_logdet K). Qed.
+Print Assumptions c14_kl_logdet_whitening_triangular_partial.
+
+(* NGD-CIQ (known finding C14-ciq-ngd-diagonal-covariance): the marginal variances the code
+   returns, diag(Kxx) - sum_k A_ki^2 + sum_k (S A)_ki A_ki, ARE the diagonal of the closed form
+   Kxx + A^T (S - I) A; only the off-diagonal entries are dropped *)
+Theorem c14_ciq_ngd_variance_is_diagonal_of_closed_form :
+  forall (K : Fld) m A Kxx S i, ciq_ngd_var m A Kxx S i = wh_cov m A Kxx S i i.
+Proof. intros K. exact (@ciq_ngd_var_is_diag K). Qed.
+Print Assumptions c14_ciq_ngd_variance_is_diagonal_of_closed_form.
+
+(* grid-interpolation strategy, exact limit used by the executable model (run_c14 2/5): an
+   interpolation matrix with one-hot rows (inputs at grid nodes) selects entries of q(u):
+   W m = m[ix] and W S W^T = S[ix, ix] *)
+Theorem c14_grid_onehot_interpolation_selects :
+  forall (K : Fld) m ix mq S i j, (ix i < m)%nat -> (ix j < m)%nat ->
+    mmul m (onehot_rows ix) mq i O = gather ix (fun x => x) mq i O /\
+    mmul m (onehot_rows ix) (mmul m S (mT (onehot_rows ix))) i j = gather ix ix S i j.
+Proof. intros K. exact (@onehot_selects K). Qed.
+Print Assumptions c14_grid_onehot_interpolation_selects.
+
+(* delta distributions (S = 0): whitened covariance Kxx - A^T A, unwhitened covariance = the
+   prior conditional Kxx - Kxz Kzz^-1 Kzx *)
+Theorem c14_delta_covariances :
+  forall (K : Fld) m n,
+    (forall A Kxx, meq n n (wh_cov m A Kxx delta_cov) (msub Kxx (mmul m (mT A) A))) /\
+    (forall Kzz Kzx Kxx Kinv, is_inverse m Kzz Kinv ->
+       meq n n (unwh_cov m Kzz Kzx Kxx Kinv delta_cov)
+               (msub Kxx (mmul m (mT Kzx) (mmul m Kinv Kzx)))).
+Proof. intros K. exact (@delta_covariances K). Qed.
+Print Assumptions c14_delta_covariances.
+
 (* natural parameters: the code's S = C^-T C^-1 (C C^T = -2 Theta) inverts the precision ... *)
 Theorem c14_natural_cov_is_inverse_precision :
   forall (K : Fld) n P C Ci,
@@ -140,3 +185,7 @@ Example ex_c14_hypotheses_satisfiable :
   @two QcF <> @f0 QcF.
 Proof. exact ex_hypotheses_satisfiable. Qed.
 Print Assumptions ex_c14_hypotheses_satisfiable.
+
+Example ex_c14_lower_triangular_factors : @lower QcF 2 exL /\ @lower QcF 2 exC.
+Proof. exact ex_lower. Qed.
+Print Assumptions ex_c14_lower_triangular_factors.
